@@ -6,4 +6,9 @@ import LicenseExpr.Props.C07
 #print axioms LE.C07_idem
 #print axioms LE.C07_idem_any_order
 #print axioms LE.C07_absorb_free
+#print axioms LE.atomOrd_of_renderDistinct
+#print axioms LE.C07_rewrite
+#print axioms LE.C07_rewrite_text
+#print axioms LE.C07_perm
+#print axioms LE.C07_needs_render_distinct
 #print axioms LE.C07_sort_idem_partial
